@@ -33,7 +33,7 @@ def run_function(model: Model, cname: str, mod: str, subject_kind: str, pattern_
     mapre = model.functions.get("function_extensions._pattern.map_re")
 
     def body(it: Interp) -> Any:
-        f = it.new_inst(ci, cname)
+        f = it.harness_inst(ci, cname)
 
         def mk(kind: str, label: str) -> Any:
             if kind == "nothing":
